@@ -355,6 +355,15 @@ func (fr *Frame) callWithSpec(callee *ssa.Function, spec *FuncSpec, args []Val, 
 		t := env.eval(r.E).asBool()
 		fx.oblige("requires", fmt.Sprintf("%s/call/%s/requires/%s#", fr.path, short, clauseName(r, i)), st, t, pos, r.Src)
 	}
+	inModel := T("true")
+	for i, r := range spec.Models {
+		t := env.eval(r.E).asBool()
+		fx.oblige("model", fmt.Sprintf("%s/call/%s/models/%s#", fr.path, short, clauseName(r, i)), st, t, pos, r.Src)
+		inModel = and(inModel, t)
+	}
+	if inModel != "true" {
+		inModel = fx.defineBool("inmodel", inModel)
+	}
 	// frame
 	allocates := !spec.Pure
 	for _, m := range spec.Modifies {
@@ -428,7 +437,8 @@ func (fr *Frame) callWithSpec(callee *ssa.Function, spec *FuncSpec, args []Val, 
 			return fx.hyp(func() T { return post.eval(c.E).asBool() }), true
 		}()
 		if ok {
-			fx.assume(st.guard, t)
+			// outside the modelled domain nothing is known about the call
+			fx.assume(st.guard, imp(inModel, t))
 		}
 	}
 	if spec.MayPanic {
